@@ -366,6 +366,34 @@ func runC11(e *Env) {
 	if nfds > 8 {
 		active = fds[:8] // the rest only makes the batch big
 	}
+	// connect-style descriptors: registered for writability only, edge-triggered (what a dial waits
+	// on); the peer stays or goes away. Their events carry OUT, RDHUP and HUP but never IN.
+	type c11W struct {
+		fd, peer, writes, hups, hupSeq, detachSeq int
+		closed                                    bool
+	}
+	var wfds []*c11W
+	for i := 0; i < e.Intn(3); i++ {
+		a, b := vsys.HSocketpair()
+		vsys.Adopt(a)
+		w := &c11W{fd: a, peer: b, detachSeq: -1}
+		op := poll.Alloc()
+		op.FD = a
+		op.OnWrite = func(p Poll) error { w.writes++; return nil }
+		op.OnHup = func(p Poll) error { w.hups++; w.hupSeq = simrt.Step(); return nil }
+		if err := poll.Control(op, PollWritable); err != nil {
+			panic("harness: register: " + err.Error())
+		}
+		wfds = append(wfds, w)
+		if e.Chance(2, 3) {
+			simrt.GoNamed("wpeer", false, func() {
+				simrt.Sleep(int64(e.Pick(0, 1, 2, 4)) * 300000)
+				w.closed = true
+				vsys.HClose(w.peer)
+				w.peer = -1
+			})
+		}
+	}
 	// peers
 	for _, x := range active {
 		x := x
@@ -483,6 +511,23 @@ func runC11(e *Env) {
 			}
 		}
 	}
+	for i, w := range wfds {
+		for _, ev := range vsys.Events {
+			if ev.Name == "epoll_ctl" && ev.N == syscall.EPOLL_CTL_DEL && ev.Err == 0 && ev.FD == w.fd && w.detachSeq < 0 {
+				w.detachSeq = ev.Step
+			}
+		}
+		switch {
+		case w.closed && w.hups != 1:
+			e.Fail("hup-once", "hup-missing/writable-only", "descriptor w%d is registered for writability only (edge-triggered, as a connecting socket); its peer closed and hang-up was reported %d times, the poller is idle (writability reported %d times)", i, w.hups, w.writes)
+		case !w.closed && w.hups != 0:
+			e.Fail("hup-once", "hup-spurious/writable-only", "descriptor w%d: hang-up reported although the peer is still there", i)
+		case w.hups == 1 && (w.detachSeq < 0 || w.detachSeq > w.hupSeq):
+			e.Fail("hup-after-deregistration", "hup-before-detach/writable-only", "descriptor w%d: hang-up reported at step %d, deregistration at step %d", i, w.hupSeq, w.detachSeq)
+		case !w.closed && w.writes == 0:
+			e.Fail("writable-reported", "writable-missing", "descriptor w%d is writable and registered for writability, which was never reported", i)
+		}
+	}
 	// Close stops the loop and releases the poller's own descriptors
 	epfd, wfd := poll.fd, poll.wop.FD
 	poll.Close()
@@ -500,7 +545,14 @@ func runC11(e *Env) {
 		vsys.Disown(x.fd)
 		vsys.HClose(x.fd)
 	}
-	e.Summary = fmt.Sprintf("fds=%d faults=%v", nfds, faults)
+	for _, w := range wfds {
+		if w.peer >= 0 {
+			vsys.HClose(w.peer)
+		}
+		vsys.Disown(w.fd)
+		vsys.HClose(w.fd)
+	}
+	e.Summary = fmt.Sprintf("fds=%d wfds=%d faults=%v", nfds, len(wfds), faults)
 	for _, x := range active {
 		e.Summary += fmt.Sprintf(" d%d{wrote=%d acked=%d hups=%d end=%s out=%v det=%v}", x.id, x.wrote, x.acked, x.hups, x.peerEnd, x.wantOut, x.userDet)
 	}
